@@ -10,7 +10,7 @@ type tapeCore struct {
 	maxReads int        // bound on the number of Read calls (rejection loop unwinding)
 	lastLen  int        // length of the last Read
 	last     [8]byte    // bytes of the last Read (len <= 8 for UintN)
-	vals     [16]uint64 // little-endian value of each Read (len <= 8)
+	vals     [80]uint64 // little-endian value of each Read (len <= 8)
 	rec      []byte     // if non-nil, every byte handed out is appended here
 	fixed    []byte     // if non-nil, bytes to hand out instead of fresh ones
 	fixedPos int
@@ -74,6 +74,26 @@ func zzC15_UintN_contract(maxReads int) {
 	r2 := p2.UintN(n)
 	verifAssert(r2 == r, "result depends on (n, tape) only, not on stale buffer bytes")
 	verifAssert(t2.reads == t.reads, "same number of attempts for the same tape")
+}
+
+// zzC15_UintN_long: long rejection runs for a concrete n: for every tape with up to maxReads attempts, UintN returns
+// exactly the FIRST sample (little-endian bytes of one Read, masked to the bit length of n-1) that is below n:
+// every earlier attempt was out of range, the last one is the result unchanged. (This is what makes the output
+// exactly uniform: conditioned on acceptance a masked sample is uniform on [0, n).)
+func zzC15_UintN_long(n uint64, maxReads int) {
+	p, t := newTapePRG(maxReads)
+	r := p.UintN(n)
+	verifReach("UintN returned")
+	mask := uint64(0)
+	for mask < n-1 {
+		mask = mask<<1 | 1
+	}
+	verifAssert(r < n, "UintN result < n")
+	verifAssert(t.reads >= 1, "at least one attempt")
+	for j := 0; j < t.reads-1; j++ {
+		verifAssert(t.vals[j]&mask >= n, "only out-of-range samples are rejected")
+	}
+	verifAssert(t.vals[t.reads-1]&mask == r, "the result is the first in-range sample, unchanged (also after a long run of rejections)")
 }
 
 // zzC15_UintN_uniform: exact uniformity as a bijection between preimage sets. For every n, every
